@@ -741,9 +741,29 @@ class Body:
         return live_in, live_out
 
     # -- maybe-initialised (forward) ----------------------------------------------------
-    def maybe_init(self):
-        """init_in[bb], init_out[bb]: locals that may hold a value (assigned, not yet moved/dropped/dead)."""
+    def maybe_init(self, option_aware=False):
+        """init_in[bb], init_out[bb]: locals that may hold a value (assigned, not yet moved/dropped/dead).
+
+        option_aware: an `Option<_>` local also stops holding a value when its payload is moved out (`move (l as Some).0`) and on
+        the `None` edge of a switch on its discriminant."""
         n = self.n
+        none_edge = {}
+        if option_aware:
+            for bi, bl in enumerate(self.blocks):
+                t = bl["term"]
+                if t["k"] != "switch":
+                    continue
+                d = op_base(t["discr"])
+                for st in bl["stmts"]:
+                    if st["k"] == "assign" and st["rv"]["k"] == "discr" and st["pl"]["l"] == d and not st["rv"]["pl"].get("p"):
+                        l = st["rv"]["pl"]["l"]
+                        if self.local_ty(l).startswith("std::option::Option<"):
+                            m = {v: tb for v, tb in t["targets"]}
+                            tgt = m.get(0)
+                            if tgt is None and 1 in m:
+                                tgt = t["otherwise"]
+                            if tgt is not None:
+                                none_edge[(bi, tgt)] = l
         init_in = [set() for _ in range(n)]
         init_out = [None] * n
 
@@ -759,6 +779,8 @@ class Body:
                             l = op_local(o)
                             if l is not None:
                                 st.discard(l)
+                            elif option_aware and (o["pl"].get("p") or [])[:2] == ["as Some", ".0"] and len(o["pl"]["p"]) == 2:
+                                st.discard(o["pl"]["l"])
                     if not s["pl"].get("p"):
                         st.add(s["pl"]["l"])
                 elif k == "dead":
@@ -795,7 +817,10 @@ class Body:
                 continue
             init_out[bi] = out
             for s in self.succ[bi]:
-                new = init_in[s] | out
+                eo = out
+                if (bi, s) in none_edge:
+                    eo = out - {none_edge[(bi, s)]}
+                new = init_in[s] | eo
                 if new != init_in[s] or init_out[s] is None:
                     init_in[s] = new
                     if s not in inq:
